@@ -219,22 +219,41 @@ def semStr (s : Sem) : String :=
   s!"cur={s.cur};size={s.size};q={joinWith "+" (s.waiters.map (fun w => s!"{w.1}.{w.2}"))}"
 
 /-- `acquireRequestSema(ctx, requestBufTake(body))` = `TryAcquire`, then `Acquire` if that failed -/
+def semAcq (buf : Int) (s : Sem) (i : Nat) (len : Int) : Sem × List SEv :=
+  let n := requestBufTake buf len
+  let (s1, e1) := s.step (.tryAcq i n)
+  if e1 == [.admitted i] then (s1, e1)
+  else
+    let (s2, e2) := s1.step (.acquire i n)
+    (s2, e1 ++ e2)
+
+/-- `a<id>:<size>`: `acquireRequestSema(ctx, requestBufTake(size))` called directly;
+`k<id>:<body>`: a packet with `body` bytes arrives on its own connection and `Server.receiveLoopImpl` accounts for it
+(`requestBufTake(header.length)`, the packet length includes the 16 bytes of framing);
+`x<id>`: the context is cancelled / the connection is closed while the request waits: `Acquire` fails, and the
+receive loop releases the handler context of a request that never got memory (`releaseRequestBuf(hctx.reqTaken)`);
+`r<id>`: the handler of an admitted request returns / `releaseRequestBuf` -/
 def semOp (buf : Int) (s : Sem) (str : String) : Option (Sem × List SEv) :=
   match str.toList with
   | 'a' :: rest =>
     match (String.ofList rest).splitOn ":" with
     | [i, b] => match i.toNat?, b.toNat? with
+      | some i, some b => some (semAcq buf s i b)
+      | _, _ => none
+    | _ => none
+  | 'k' :: rest =>
+    match (String.ofList rest).splitOn ":" with
+    | [i, b] => match i.toNat?, b.toNat? with
       | some i, some b =>
-        let n := requestBufTake buf b
-        let (s1, e1) := s.step (.tryAcq i n)
-        if e1 == [.admitted i] then some (s1, e1)
-        else
-          let (s2, e2) := s1.step (.acquire i n)
-          some (s2, e1 ++ e2)
+        if b % 4 != 0 || b < 12 || b > 1048576 then none else some (semAcq buf s i (b + 16))
       | _, _ => none
     | _ => none
   | 'r' :: rest => (String.ofList rest).toNat?.map (fun i => s.step (.release i))
-  | 'x' :: rest => (String.ofList rest).toNat?.map (fun i => s.step (.cancel i))
+  | 'x' :: rest => (String.ofList rest).toNat?.map (fun i =>
+      let wasQueued := (heldAmount i s.waiters).isSome
+      let (s1, e1) := s.step (.cancel i)
+      -- the failed request's handler context is released: it holds nothing (`failed_acquire_releases_nothing`)
+      if wasQueued then let (s2, e2) := s1.step (.release i); (s2, e1 ++ e2) else (s1, e1))
   | _ => none
 
 def runRM (buf : Int) : Sem → List String → List String → List String
